@@ -13,7 +13,8 @@
 (* Kind "fr" (C17): per scenario the global sequence of events             *)
 (*    reset, call (Send invoked), ret (Send returned / panicked),          *)
 (*    drop (Send reported the enqueue timeout for one destination),        *)
-(*    in (InMsg taken from a receiver's channel), crash, end.              *)
+(*    in (InMsg taken from a receiver's channel), crash, end             *)
+(*    (stall: an inbound peer connected to the victim and stopped).        *)
 (* The state is the set of message copies accepted for sending and not yet *)
 (* received; an `in' event must be explained by the oldest pending copy of *)
 (* one goroutine (otherwise: modified / duplicated / out of order).        *)
@@ -141,7 +142,7 @@ Crash ==
   /\ UNCHANGED <<tid, meta, pend, got, drift, ndeliv, ndrop>>
 
 Skip ==
-  /\ Line.e \in {"rawbad", "up", "note"}
+  /\ Line.e \in {"rawbad", "up", "note", "stall"}
   /\ UNCHANGED <<tid, meta, pend, got, viol, drift, npanic, ndeliv, ndrop>>
 
 End ==
@@ -150,7 +151,9 @@ End ==
          lost == {p \in pend : p.to \in recv /\ ~p.opt /\ ~p.raw /\ p.to \notin Rng2(meta.layout)}
          lostRaw == {p \in pend : p.to \in recv /\ ~p.opt /\ (p.raw \/ p.to \in Rng2(meta.layout))}
          faulty == meta.fault \in {"down", "late", "stalled", "garble"}
-         iso == {p \in lost : faulty /\ p.to # meta.victim /\ p.from # meta.victim}
+         \* "install": the faulty peer is an inbound connection that stalls at set-up; every party, the one it latched on to
+         \* included, is healthy
+         iso == IF meta.fault = "install" THEN lost ELSE {p \in lost : faulty /\ p.to # meta.victim /\ p.from # meta.victim}
          bad == (IF iso # {} THEN {"FaultIsolated"} ELSE {}) \cup (IF lost \ iso # {} THEN {"Delivered"} ELSE {})
          d == IF lostRaw # {} THEN "frames of a raw endpoint were not delivered (wire layout)"
               ELSE IF meta.expect_drop /\ ndrop = 0 THEN "model predicts a copy given up after the enqueue timeout, none reported"
